@@ -147,16 +147,19 @@ static std::string check_ciphers(const KV &c) {
         if (ia) ia->save_key(sv.p); else if (ib) ib->save_key(sv.p); else if (ic) ic->save_key(sv.p);
         if (sv.bytes() != c_isap_saved(alg, eff)) return where + "save_key() differs from the C API's saved key";
     }
-    if (fam == 1) {
-        // randomize_key() must not change the key's value
-        ascon::aead_masked *mo = dynamic_cast<ascon::aead_masked *>(o.get());
-        mo->randomize_key();
+    {
+        // one more packet: the successful decrypt above (raw-pointer or byte_array overload) advanced the nonce by one,
+        // the refused ones did not; for the masked classes randomize_key() first, which must not change the key's value
+        if (fam == 1) {
+            ascon::aead_masked *mo = dynamic_cast<ascon::aead_masked *>(o.get());
+            mo->randomize_key();
+        }
         Bytes n3 = n2;
         for (int i = 15; i >= 0; --i) if (++n3[i]) break;
         Buf a(ad), m(pt), ct(pt.size() + 16);
         tape_words_set(TAPE, 4);
         o->encrypt(ct.p, m.p, m.n, ov == 1 ? nullptr : a.p, ov == 1 ? 0 : a.n);
-        if (ct.bytes() != c_encrypt(fam, alg, eff, n3, ov == 1 ? Bytes() : ad, pt)) return where + "ciphertext differs after randomize_key()";
+        if (ct.bytes() != c_encrypt(fam, alg, eff, n3, ov == 1 ? Bytes() : ad, pt)) return where + (fam == 1 ? "ciphertext differs after randomize_key()" : "the packet after a successful decrypt is not under nonce + 2");
     }
     return "";
 }
@@ -185,6 +188,10 @@ static bool classify_hash(const KV &c, std::vector<std::string> &tags) {
     if (fl & 2) tags.push_back("assign");
     if (fl & 4) tags.push_back("reset");
     if (fl & 8) tags.push_back("named-ctor");
+    if (fl & 0x200) tags.push_back("self-assignment");
+    if ((fl & 0x400) && tonum(c, "kind") >= 2) tags.push_back("pad()");
+    if ((fl & 0x800) && tonum(c, "kind") < 2) tags.push_back("finalize-reset-reuse");
+    if ((fl & 8) && tonum(c, "kind") >= 2) tags.push_back(std::string("ctor-name=") + (((fl >> 12) & 3) == 0 ? "ordinary" : ((fl >> 12) & 3) == 1 ? "NULL" : ((fl >> 12) & 3) == 2 ? "empty" : ">32"));
     if ((fl & 0x100) && tonum(c, "upd") == 1 && (tostr(c, "d1").empty() || tostr(c, "d2").empty())) tags.push_back("NULL-c-string");
     { Bytes a = tobytes(c, "d1"), b = tobytes(c, "d2"); if (std::count(a.begin(), a.end(), 0) || std::count(b.begin(), b.end(), 0)) tags.push_back("data-with-NUL"); }
     return tonum(c, "upd") != 0 || (fl & 15);
@@ -214,10 +221,21 @@ template <class H, bool A> static std::string run_hash(const KV &c) {
     H h2(h);                 // copy constructor
     H h3; HashOps::upd(h3, 0, d2); h3 = h;   // assignment over a used object
     H *use = (fl & 1) ? &h2 : (fl & 2) ? &h3 : &h;
-    HashOps::upd(*use, u, d2);
+    if (fl & 0x200) { H &self = *use; *use = self; }     // self-assignment must change nothing
+    if (fl & 0x400) { Buf b(d2); if (A) ascon_hasha_update((ascon_hasha_state_t *)use->state(), b.p, b.n); else ascon_hash_update((ascon_hash_state_t *)use->state(), b.p, b.n); }   // state(): "the C version of the state"
+    else HashOps::upd(*use, u, d2);
     Bytes got;
     if (fl & 16) { Buf o(32); use->finalize(o.p); got = o.bytes(); } else { ascon::byte_array r = use->finalize(); got.assign(r.begin(), r.end()); }
     if (got != want.bytes()) return std::string(A ? "hasha" : "hash") + " class (update " + UP[u] + ", flags " + num(fl) + ") differs from the C API";
+    if (fl & 0x800) {   // "The application must call reset() to perform another hashing process"
+        use->reset();
+        HashOps::upd(*use, u, d2);
+        Buf w2(32), i2(d2);
+        if (A) ascon_hasha(w2.p, i2.p, i2.n); else ascon_hash(w2.p, i2.p, i2.n);
+        ascon::byte_array r = use->finalize();
+        if (Bytes(r.begin(), r.end()) != w2.bytes()) return std::string(A ? "hasha" : "hash") + " class: finalize, reset, second message differs from the C API";
+        if (use == &h) return "";     // h is used up for the 'original unaffected' check below
+    }
     Buf o2(32);
     H::digest(o2.p, in.p, in.n);
     if (o2.bytes() != want.bytes()) return "static digest() differs from the C API";
@@ -235,27 +253,36 @@ template <class X, bool A, size_t N> static std::string run_xof(const KV &c) {
     Buf in(all), cu(custom), want(outlen);
     bool named = fl & 8;
     int nk = (fl >> 5) & 3;   // which named constructor
+    // function name given to the named constructors: ordinary, NULL, empty, longer than 32 characters (hashed)
+    static const char *NAMES[4] = {"verif-name", nullptr, "", "a-function-name-of-more-than-32-characters!"};
+    const char *fname = NAMES[(fl >> 12) & 3];
+    bool padmid = (fl & 0x400) != 0;      // pad() between the two absorbs == ascon_xof(a)_pad
     if (A) {
         ascon_xofa_state_t s;
-        if (named) ascon_xofa_init_custom(&s, "verif-name", nk == 0 ? nullptr : cu.p, nk == 0 ? 0 : cu.n, N); else if (N == 0) ascon_xofa_init(&s); else ascon_xofa_init_fixed(&s, N);
-        ascon_xofa_absorb(&s, in.p, in.n); ascon_xofa_squeeze(&s, want.nn(), outlen); ascon_xofa_free(&s);
+        if (named) ascon_xofa_init_custom(&s, fname, nk == 0 ? nullptr : cu.p, nk == 0 ? 0 : cu.n, N); else if (N == 0) ascon_xofa_init(&s); else ascon_xofa_init_fixed(&s, N);
+        { Buf b1(d1), b2(d2); ascon_xofa_absorb(&s, b1.p, b1.n); if (padmid) ascon_xofa_pad(&s); ascon_xofa_absorb(&s, b2.p, b2.n); }
+        ascon_xofa_squeeze(&s, want.nn(), outlen); ascon_xofa_free(&s);
     } else {
         ascon_xof_state_t s;
-        if (named) ascon_xof_init_custom(&s, "verif-name", nk == 0 ? nullptr : cu.p, nk == 0 ? 0 : cu.n, N); else if (N == 0) ascon_xof_init(&s); else ascon_xof_init_fixed(&s, N);
-        ascon_xof_absorb(&s, in.p, in.n); ascon_xof_squeeze(&s, want.nn(), outlen); ascon_xof_free(&s);
+        if (named) ascon_xof_init_custom(&s, fname, nk == 0 ? nullptr : cu.p, nk == 0 ? 0 : cu.n, N); else if (N == 0) ascon_xof_init(&s); else ascon_xof_init_fixed(&s, N);
+        { Buf b1(d1), b2(d2); ascon_xof_absorb(&s, b1.p, b1.n); if (padmid) ascon_xof_pad(&s); ascon_xof_absorb(&s, b2.p, b2.n); }
+        ascon_xof_squeeze(&s, want.nn(), outlen); ascon_xof_free(&s);
     }
     std::unique_ptr<X> x;
     ascon::byte_array cba(custom.begin(), custom.end());
     if (!named) x.reset(new X());
-    else if (nk == 0) x.reset(new X("verif-name"));
-    else if (nk == 1 || nk == 3) x.reset(new X("verif-name", cu.p, cu.n));
-    else x.reset(new X("verif-name", cba));
+    else if (nk == 0) x.reset(new X(fname));
+    else if (nk == 1 || nk == 3) x.reset(new X(fname, cu.p, cu.n));
+    else x.reset(new X(fname, cba));
     if ((fl & 4) && !named) { XofOps::upd(*x, 0, d2); x->reset(); }
     XofOps::upd(*x, u, d1);
     X x2(*x);
     X x3; XofOps::upd(x3, 0, d2); x3 = *x;
     X *use = (fl & 1) ? &x2 : (fl & 2) ? &x3 : x.get();
-    XofOps::upd(*use, u, d2);
+    if (fl & 0x200) { X &self = *use; *use = self; }
+    if (padmid) use->pad();
+    if (fl & 0x800) { Buf b(d2); if (A) ascon_xofa_absorb((ascon_xofa_state_t *)use->state(), b.p, b.n); else ascon_xof_absorb((ascon_xof_state_t *)use->state(), b.p, b.n); }
+    else XofOps::upd(*use, u, d2);
     Bytes got;
     if (fl & 16) { Buf o(outlen); use->squeeze(o.nn(), outlen); got = o.bytes(); } else { ascon::byte_array r = use->squeeze(outlen); got.assign(r.begin(), r.end()); }
     if (got != want.bytes()) return std::string(A ? "xofa" : "xof") + "<" + num(N) + "> class (update " + UP[u] + ", flags " + num(fl) + ", named=" + num(named) + ") differs from the C API";
@@ -277,8 +304,54 @@ static std::string check_hash(const KV &c) {
     }
 }
 
+// ------------------------------------------------------------------ public size macros against observed behaviour
+// (applications size their buffers with these; every other harness uses literal numbers)
+static rc::Gen<KV> gen_constants() {
+    return rc::gen::map(rc::gen::tuple(inRangeFull(0, 4), inRangeFull(0, 3), genBytesN(20)), [](std::tuple<int, int, Bytes> t) {
+        KV c; c["fam"] = num(std::get<0>(t)); c["alg"] = num(std::get<1>(t)); c["key"] = hex(std::get<2>(t)); return c; });
+}
+static bool classify_constants(const KV &, std::vector<std::string> &) { return true; }
+static std::string check_constants(const KV &c) {
+    int fam = (int)tonum(c, "fam"), alg = (int)tonum(c, "alg");
+    Bytes key = tobytes(c, "key");
+    std::unique_ptr<ascon::aead> o(lib::make_cpp(fam, alg));
+    size_t kmac = fam == 3 ? (alg == 2 ? (size_t)ASCON80PQ_ISAP_KEY_SIZE : (size_t)ASCON128_ISAP_KEY_SIZE) : (alg == 2 ? (size_t)ASCON80PQ_KEY_SIZE : (size_t)ASCON128_KEY_SIZE);
+    size_t tmac = fam == 3 ? (size_t)ASCON_ISAP_TAG_SIZE : (alg == 2 ? (size_t)ASCON80PQ_TAG_SIZE : (size_t)ASCON128_TAG_SIZE);
+    size_t nmac = fam == 3 ? (size_t)ASCON_ISAP_NONCE_SIZE : (alg == 2 ? (size_t)ASCON80PQ_NONCE_SIZE : (size_t)ASCON128_NONCE_SIZE);
+    std::string who = "family " + num(fam) + " alg " + num(alg) + ": ";
+    if (o->key_size() != kmac) return who + "key_size() " + num(o->key_size()) + " != the *_KEY_SIZE macro " + num(kmac);
+    if (o->tag_size() != tmac) return who + "tag_size() != the *_TAG_SIZE macro";
+    if (o->nonce_size() != nmac) return who + "nonce_size() != the *_NONCE_SIZE macro";
+    // a ciphertext is the plaintext plus TAG_SIZE bytes; set_key accepts exactly KEY_SIZE bytes
+    Buf k(Bytes(key.begin(), key.begin() + kmac)), m(5), ct(5 + tmac + 8, 0x5A);
+    if (!o->set_key(k.p, kmac)) return who + "set_key refuses a key of *_KEY_SIZE bytes";
+    tape_words_set(TAPE, 4);
+    int r = o->encrypt(ct.p, m.p, 5, nullptr, 0);
+    if (r != (int)(5 + tmac)) return who + "encrypt returned " + std::to_string(r) + ", not len + *_TAG_SIZE";
+    for (size_t i = 5 + tmac; i < ct.n; ++i) if (ct.p[i] != 0x5A) return who + "encrypt wrote more than len + *_TAG_SIZE bytes";
+    if (fam == 3) {
+        Buf sv((size_t)ASCON_ISAP_SAVED_KEY_SIZE + 8, 0x5A);
+        Bytes saved = c_isap_saved(alg, k.bytes());
+        if (saved.size() != (size_t)ASCON_ISAP_SAVED_KEY_SIZE) return who + "the saved-key size used by the C API differs from ASCON_ISAP_SAVED_KEY_SIZE";
+        if (!o->set_key(saved.data(), ASCON_ISAP_SAVED_KEY_SIZE)) return who + "set_key refuses ASCON_ISAP_SAVED_KEY_SIZE bytes";
+    }
+    // hashing / MAC / KDF sizes
+    { Buf h((size_t)ASCON_HASH_SIZE + 8, 0x5A); ascon_hash(h.p, m.p, 5); if (h.p[ASCON_HASH_SIZE - 1] == 0x5A && h.p[ASCON_HASH_SIZE - 2] == 0x5A) return "ascon_hash wrote fewer than ASCON_HASH_SIZE bytes"; for (size_t i = ASCON_HASH_SIZE; i < h.n; ++i) if (h.p[i] != 0x5A) return "ascon_hash wrote more than ASCON_HASH_SIZE bytes"; }
+    { Buf h((size_t)ASCON_HASHA_SIZE + 8, 0x5A); ascon_hasha(h.p, m.p, 5); for (size_t i = ASCON_HASHA_SIZE; i < h.n; ++i) if (h.p[i] != 0x5A) return "ascon_hasha wrote more than ASCON_HASHA_SIZE bytes"; }
+    { Buf h((size_t)ASCON_HMAC_SIZE + 8, 0x5A); ascon_hmac(h.p, k.p, kmac, m.p, 5); for (size_t i = ASCON_HMAC_SIZE; i < h.n; ++i) if (h.p[i] != 0x5A) return "ascon_hmac wrote more than ASCON_HMAC_SIZE bytes"; }
+    { Buf t((size_t)ASCON_MAC_TAG_SIZE + 8, 0x5A), kk(Bytes(key.begin(), key.begin() + ASCON_MAC_KEY_SIZE)); ascon_mac(t.p, m.p, 5, kk.p); for (size_t i = ASCON_MAC_TAG_SIZE; i < t.n; ++i) if (t.p[i] != 0x5A) return "ascon_mac wrote more than ASCON_MAC_TAG_SIZE bytes"; }
+    { Buf in((size_t)ASCON_PRF_SHORT_MAX_INPUT_SIZE + 1), out((size_t)ASCON_PRF_SHORT_MAX_OUTPUT_SIZE + 1), kk(Bytes(key.begin(), key.begin() + ASCON_PRF_SHORT_KEY_SIZE));
+      if (ascon_prf_short(out.p, ASCON_PRF_SHORT_MAX_OUTPUT_SIZE, in.p, ASCON_PRF_SHORT_MAX_INPUT_SIZE, kk.p) != 0) return "ascon_prf_short refuses the documented maximum sizes";
+      if (ascon_prf_short(out.p, ASCON_PRF_SHORT_MAX_OUTPUT_SIZE + 1, in.p, 1, kk.p) != -1 || ascon_prf_short(out.p, 1, in.p, ASCON_PRF_SHORT_MAX_INPUT_SIZE + 1, kk.p) != -1) return "ascon_prf_short accepts more than the documented maximum sizes"; }
+    { size_t lim = (size_t)ASCON_HKDF_OUTPUT_SIZE * 255; Buf out(lim + 1);
+      if (ascon_hkdf(out.p, lim, k.p, kmac, nullptr, 0, nullptr, 0) != 0) return "ascon_hkdf refuses ASCON_HKDF_OUTPUT_SIZE * 255 bytes";
+      if (ascon_hkdf(out.p, lim + 1, k.p, kmac, nullptr, 0, nullptr, 0) != -1) return "ascon_hkdf accepts more than ASCON_HKDF_OUTPUT_SIZE * 255 bytes"; }
+    return "";
+}
+
 int main(int argc, char **argv) {
     std::vector<Prop> props = {
+        {"c17_constants", gen_constants, check_constants, classify_constants},
         {"c17_ciphers", gen_ciphers, check_ciphers, classify_ciphers},
         {"c17_hash", gen_hash, check_hash, classify_hash},
     };
